@@ -241,7 +241,8 @@ type proc struct {
 	inCall bool // R: a handler of an injected frame is running (touched by the reading goroutine only)
 
 	// scheduler side
-	stopped  bool // R: no further frame of the peer can reach a handler
+	stopped  bool  // R: no further frame of the peer can reach a handler
+	need     int64 // K, R: bytes of the control frame in progress that have not reached the transport yet
 	begun    int
 	busy     bool
 	derailed bool
@@ -381,6 +382,23 @@ func (s *session) perform(p *proc, e procEvent) {
 	<-s.umu
 	err := s.performLocked(p.name, p.begun, e.op, e.bytes)
 	s.umu <- struct{}{}
+	if e.op == "write" && p.name != "D" {
+		// a control frame may take several adjacent transport writes (header, payload ..): how much is left
+		switch {
+		case err != nil:
+			p.need = 0
+		case p.need > 0:
+			if p.need -= int64(len(e.bytes)); p.need < 0 {
+				p.need = 0
+			}
+		default:
+			if h, ok := parseHdr(e.bytes); ok {
+				if p.need = int64(h.hlen) + h.plen - int64(len(e.bytes)); p.need < 0 {
+					p.need = 0
+				}
+			}
+		}
+	}
 	e.reply <- err
 }
 
@@ -436,6 +454,7 @@ func (s *session) inject(p *proc) bool {
 	}
 	p.begun++
 	p.busy = true
+	p.need = 0
 	if op == "close" {
 		p.stopped = true // the reader returns the peer's close as an error and reads no more
 	}
@@ -554,6 +573,7 @@ func (s *session) doBegin(p *proc) bool {
 	}
 	p.begun++
 	p.busy = true
+	p.need = 0
 	s.record(traceEv{Ev: "begin", Proc: p.name, Call: p.begun, Ok: true})
 	p.goCh <- struct{}{}
 	return true
@@ -676,6 +696,20 @@ func (s *session) step(p *proc, pause bool) bool {
 		return false
 	}
 	s.perform(p, e)
+	// the remaining parts of a control frame follow at once: "w:p" is the whole frame
+	for p.need > 0 {
+		select {
+		case e = <-p.evc:
+		case <-time.After(s.wait):
+			s.late++
+			return true
+		}
+		if e.ret {
+			s.onRet(p, e)
+			return true
+		}
+		s.perform(p, e)
+	}
 	return true
 }
 
@@ -970,11 +1004,21 @@ func runSchedule(c *schedCase, idx int, seed int, wait time.Duration) outcome {
 
 // tagWrites names every transport write of a process from that process' own byte stream:
 // D alternates header writes (frame header + buffered bytes) and, when the header announces
-// more payload than the write carries, one extra write with exactly the rest; K writes whole
-// control frames. Returns the observed frame structure of D's messages.
-func (s *session) tagWrites() (observed map[int][]bool, lastComplete map[int]bool) {
+// more payload than the write carries, one extra write with exactly the rest; a control frame of
+// K.. and R is a first write holding at least the frame header ("ctl") and, when the header
+// announces more than that write carries, further writes ("cext") with the rest - numbered by
+// `frame`. Returns the observed frame structure of D's messages and the number of transport
+// writes of every control call ("K1.2" -> n).
+func (s *session) tagWrites() (observed map[int][]bool, lastComplete map[int]bool, ctlParts map[string]int) {
 	observed = map[int][]bool{}
 	lastComplete = map[int]bool{}
+	ctlParts = map[string]int{}
+	type ctlOpen struct {
+		call  int
+		parts int
+		need  int64
+	}
+	copen := map[string]*ctlOpen{}
 	var open *writeRec // D's header write that waits for its extra
 	var need int64
 	for _, w := range s.writes {
@@ -1008,15 +1052,33 @@ func (s *session) tagWrites() (observed map[int][]bool, lastComplete map[int]boo
 				open, need = w, h.plen-have
 			}
 		case strings.HasPrefix(w.proc, "K") || (w.proc == "R" && w.call > 0):
-			w.frame, w.part = 1, "ctl"
+			key := fmt.Sprintf("%s.%d", w.proc, w.call)
+			if o := copen[w.proc]; o != nil && o.call == w.call && o.need > 0 {
+				o.parts++
+				w.frame, w.part, w.cls = o.parts, "cext", "raw"
+				if o.need -= int64(len(w.bytes)); o.need < 0 {
+					w.cls = "bad"
+				}
+				if !w.ok {
+					o.need = 0
+				}
+				ctlParts[key] = o.parts
+				continue
+			}
+			ctlParts[key]++
+			w.frame, w.part = ctlParts[key], "ctl"
 			h, ok := parseHdr(w.bytes)
-			if !ok || int64(len(w.bytes)) != int64(h.hlen)+h.plen {
+			if !ok || int64(len(w.bytes)) > int64(h.hlen)+h.plen {
 				w.cls = "bad"
 				continue
 			}
 			w.cls = h.class(s.client)
 			if w.cls != "ping" && w.cls != "pong" && w.cls != "close" {
 				w.cls = "bad"
+				continue
+			}
+			if w.ok {
+				copen[w.proc] = &ctlOpen{call: w.call, parts: 1, need: int64(h.hlen) + h.plen - int64(len(w.bytes))}
 			}
 		default:
 			w.frame, w.part, w.cls = 1, "ctl", "foreign"
@@ -1035,7 +1097,7 @@ func (s *session) evaluate(idx int, payloads [][]byte, got []delivered, xClosed 
 		o.probs = append(o.probs, fmt.Sprintf(format, a...))
 		o.classes[class] = true
 	}
-	observed, _ := s.tagWrites()
+	observed, _, ctlParts := s.tagWrites()
 
 	// the program of this session: the predicted frames, unless the library fragmented differently
 	rets := map[string]map[int]string{}
@@ -1093,10 +1155,25 @@ func (s *session) evaluate(idx int, payloads [][]byte, got []delivered, xClosed 
 	if rd == nil {
 		rd = []string{}
 	}
+	// the control frames that took more than one transport write
+	type cxRec struct {
+		P string `json:"p"`
+		C int    `json:"c"`
+		N int    `json:"n"`
+	}
+	cx := []cxRec{}
+	for _, w := range s.writes {
+		if w.part == "ctl" && w.frame == 1 {
+			if n := ctlParts[fmt.Sprintf("%s.%d", w.proc, w.call)]; n > 1 {
+				cx = append(cx, cxRec{w.proc, w.call, n})
+			}
+		}
+	}
 
 	// events with the tags of their writes
 	var okWrites [][]byte
-	closeAt := -1 // index in okWrites of the first Close frame
+	closeAt := -1 // index in okWrites of the last part of the first Close frame that is on the wire
+	var closeW *writeRec
 	for i := range s.ev {
 		e := &s.ev[i]
 		if e.Ev != "twrite" {
@@ -1107,7 +1184,9 @@ func (s *session) evaluate(idx int, payloads [][]byte, got []delivered, xClosed 
 		if w.ok {
 			okWrites = append(okWrites, w.bytes)
 			if w.cls == "close" && closeAt < 0 {
-				closeAt = len(okWrites) - 1
+				closeAt, closeW = len(okWrites)-1, w
+			} else if closeW != nil && closeAt == len(okWrites)-2 && w.part == "cext" && w.proc == closeW.proc && w.call == closeW.call {
+				closeAt = len(okWrites) - 1 // the next part of that Close frame
 			}
 		}
 	}
@@ -1130,7 +1209,7 @@ func (s *session) evaluate(idx int, payloads [][]byte, got []delivered, xClosed 
 
 	o.line = map[string]interface{}{
 		"case": idx, "family": c.Family,
-		"prog":      map[string]interface{}{"msgs": msgs, "hold": hold, "ctl": c.Ctl, "rd": rd, "closer": c.Closer},
+		"prog":      map[string]interface{}{"msgs": msgs, "hold": hold, "ctl": c.Ctl, "rd": rd, "cx": cx, "closer": c.Closer},
 		"ev":        append(s.ev, traceEv{Ev: "end", Ok: true}),
 		"frames":    frames,
 		"delivered": ids,
@@ -1161,11 +1240,18 @@ func (s *session) evaluate(idx int, payloads [][]byte, got []delivered, xClosed 
 		problem("C15/write-after-close", "%d transport write(s) reached the wire after the Close frame (%s)", len(okWrites)-1-closeAt, s.wireSummary())
 	}
 	closeSeen := false
+	closeProc, closeCall := "", 0
 	lateBegun := map[string]map[int]bool{}
 	for _, e := range s.ev {
 		switch {
 		case e.Ev == "twrite" && e.Ok && e.Cls == "close":
-			closeSeen = true
+			// the Close frame is sent when its last part is on the wire
+			if closeProc == "" {
+				closeProc, closeCall = e.Proc, e.Call
+			}
+			closeSeen = closeSeen || ctlParts[fmt.Sprintf("%s.%d", e.Proc, e.Call)] <= 1
+		case e.Ev == "twrite" && e.Ok && e.Part == "cext" && e.Proc == closeProc && e.Call == closeCall:
+			closeSeen = closeSeen || e.Frame == ctlParts[fmt.Sprintf("%s.%d", e.Proc, e.Call)]
 		case e.Ev == "begin" && closeSeen && e.Proc != "X":
 			if lateBegun[e.Proc] == nil {
 				lateBegun[e.Proc] = map[int]bool{}
